@@ -141,7 +141,7 @@ def run(prop, tier):
                   Patterns=tlaset('"%s_%s"' % (p[0].replace("*", "S"), p[1].replace("*", "G")) for p in PATTERNS), MaxCmds=1, Intervals="{1, 2}")
     invs = ["ExactlyOnce", "NoForeign", "AtMostOnce", "MapDrained"]
     # E1: exhaustive with one command per request (3 clients); two commands per request for 2 clients
-    r = vlib.run_tlc("Triggers", "tr_1.cfg", cfg_text=vlib.cfg_text(consts, invariants=invs, view="View"), timeout=1500)
+    r = vlib.run_tlc("Triggers", "tr_1.cfg", cfg_text=vlib.cfg_text(consts, invariants=invs, view="View"), timeout=3000, coverage=not quick)
     vlib.tlc_ok(r, "Triggers 3x1")
     res.tlc(r, "Triggers/3 clients x 1 command")
     if r["violated"]:
